@@ -11,6 +11,7 @@ Not decided: wall-clock behaviour of the reactor.
 import ast
 
 from ..model import self_attr, unparse, walk_body_shallow
+from .util import *  # noqa: F401,F403
 from .util import chains_in, origin_text, at, stored_forms, const_value, bootstrap_names, call_name, call_recv, calls_in, evaluated_unconditionally, kwarg, need, node_assign_value, norm, registrations, where
 
 TECHNIQUE = "timer armed/released pairing on the CFG, registration-kind and free-variable-before-registration checks, " \
@@ -47,8 +48,23 @@ def run(ctx):
     c = [x for x in cl[0].calls() if call_name(x) == "callLater"][0]
     dv = norm(c.args[0])
     defs = [x for x in walk_body_shallow(w.body) if isinstance(x, ast.Assign) and unparse(x.targets[0]) == dv]
-    okd = bool(defs) and all(norm(x.value) in ("self.timeout", "max(self.timeout, min_timeout)", "max(min_timeout, self.timeout)")
-                             for x in defs) and prog.resolve_callable(w, c.args[1]) is to
+    # every value the delay can take, case by case: the plain timeout exactly when no minimum was stated
+    cases_ = []
+    for x in defs:
+        dn_ = cf.node_of(x)
+        if dn_ is not None:
+            cases_ += value_cases(ctx, w, dn_, x.value)
+    mp = [p_ for p_ in w.params if "min" in p_ and "timeout" in p_]
+    mpn = mp[0] if mp else "min_timeout"
+    okd = bool(cases_) and prog.resolve_callable(w, c.args[1]) is to
+    for f_, e_ in cases_:
+        t_ = norm(e_)
+        if t_ == "self.timeout":
+            okd = okd and ("%s is None" % mpn, True) in f_
+        elif t_ in ("max(self.timeout, %s)" % mpn, "max(%s, self.timeout)" % mpn):
+            okd = okd and ("%s is None" % mpn, False) in f_
+        else:
+            okd = False
     r.check(okd, "%s#timer-delay" % w.qname, "timer delay is not the client timeout (or the stated longer minimum): %s" %
             [norm(x.value) for x in defs], where(w, c), "requests outlive the configured bound")
 
@@ -80,9 +96,9 @@ def run(ctx):
     r.check(ok, "%s#expiry" % to.qname, "expiry does not cancel the request and record a timed-out Failure", where(to, to.node),
             "timed-out request fails with CancelledError or never fails")
     fv = unparse(fa[0].targets[0]) if fa else "failure"
-    rets = [n for n in ccb.nodes if n.kind == "stmt" and isinstance(n.stmt, ast.Return)]
-    ok = any(norm(n.stmt.value) == fv and ("%s is None" % fv, False) in fcb[n.id] for n in rets) and any(
-        norm(n.stmt.value) == cb.first_param() and ("%s is None" % fv, True) in fcb[n.id] for n in rets) and len(rets) == 2
+    rets = return_cases(ctx, cb)
+    ok = any(norm(e_) == fv and ("%s is None" % fv, False) in f_ for n_, f_, e_ in rets) and any(
+        norm(e_) == cb.first_param() and ("%s is None" % fv, True) in f_ for n_, f_, e_ in rets) and len(rets) == 2
     r.check(ok, "%s#substitution" % cb.qname, "on-both handler does not return the timed-out failure when set, else its input",
             where(cb, cb.node), "reply dropped / timeout reported as cancellation")
 
@@ -118,8 +134,10 @@ def run(ctx):
     for f in prog.functions(module="client"):
         for x in calls_in(f, "request"):
             if call_recv(x) == bootstrap_names(f)[1] and bootstrap_names(f)[1] is not None:
+                cff_ = ctx.cfg(f)
                 par = [y for y in walk_body_shallow(f.body) if isinstance(y, ast.Call) and call_name(y) == "addTimeout" and
-                       isinstance(y.func, ast.Attribute) and y.func.value is x]
+                       isinstance(y.func, ast.Attribute) and cff_.containing(y) and any(
+                           o is x for o in (deferred_origins(cff_, cff_.containing(y)[0].id, y.func.value) or []))]
                 r.check(bool(par) and [norm(a) for a in par[0].args] == ["self.timeout", "self.reactor"], "%s#request.addTimeout" % f.qname,
                         "bootstrap request without the client timeout", where(f, x), "silent bootstrap host blocks metadata loading for ever")
 
